@@ -89,6 +89,8 @@ func vFamilyCurated() []string {
 		"[-o]... [X]...", "-o X -o Y", "(-o | X)...",
 		"-a... [-b]", "-a... -b", "-b -a...", "(-a | -b)... X", "[-o] [-e]", "-o -e", "[-a] [-o]", "[-a] [-o] [X]", "[-b] [-o] [-e]...",
 		"[--aa] [--oo] [--ee]", "-a [-b]... [-o]", "[-ab] [-o] X", "[-ab] [-e] [X]", "-ab -o", "[-abo] [-e] X",
+		"[-o] [-a]", "-o -a", "-b [-a] [-o]", "[X Y...] X", "[-o X...] Y", "[X Y...] Y", "[-ab] X [-o]", "[-a] [-b]", "[-ab] [-o]",
+		"(X Y...)... X", "[X [Y]...] X",
 	}
 }
 
